@@ -17,7 +17,7 @@ from engine.core import res, violation, seed_offsets
 ID = "C05"
 LEVEL = "fault_enumeration"
 WORKERS = {"quick": 12, "thorough": 16}
-RULE = ("solver: complete product residual-map menu(11) x start lattice x tol{1e-6,1e-12} x max_attempts{1,3,25} x max_delta{None,1e-2,1} x stepper{plain,armijo} x "
+RULE = ("solver statements again on a backend instance (and a per-process stepper factory) that solved another menu problem before; solver: complete product residual-map menu(11) x start lattice x tol{1e-6,1e-12} x max_attempts{1,3,25} x max_delta{None,1e-2,1} x stepper{plain,armijo} x "
         "jacobian{analytic,finite-difference}; fault injection: exceptions raised at every subset of size 1 and 2 of the first 12 residual evaluations on a sub-lattice; "
         "orbits: family{halo N,halo S,lyapunov,vertical} x point{L1,L2} x mu x amplitude ladder x tol; non-trivial = run performed >=1 Newton update; distinct = distinct configurations")
 ASSUMPTIONS = [
@@ -87,14 +87,31 @@ def run_solver(cfg):
     """returns (violation list, outcome string, n_updates)"""
     fn, jac, n = _menu()[cfg["problem"]]
     resid = Residual(fn, cfg.get("faults", ()))
-    be = _L["Newton"](stepper_factory=(_L["armijo"]() if cfg["stepper"] == "armijo" else _L["plain"]()))
-    be.log = []
+    if cfg.get("warm"):
+        # reuse: one stepper factory per process and one backend instance that has already solved another problem (other dimension, other
+        # tolerance, other step cap) -- every statement below must hold for the second request all the same
+        fkey = "factory_" + cfg["stepper"]
+        if fkey not in _L:
+            _L[fkey] = _L["armijo"]() if cfg["stepper"] == "armijo" else _L["plain"]()
+        be = _L["Newton"](stepper_factory=_L[fkey])
+        be.log = []
+        wfn, wjac, wn = _menu()[cfg["warm"]]
+        try:
+            be.run(request=_L["CorrectorInput"](initial_guess=np.array(_starts(wn, 0)[1], dtype=float), residual_fn=Residual(wfn, ()), jacobian_fn=wjac, norm_fn=None,
+                                                max_attempts=4, tol=1e-3, max_delta=0.5, fd_step=1e-7))
+        except Exception:
+            pass
+        be.log = []
+    else:
+        be = _L["Newton"](stepper_factory=(_L["armijo"]() if cfg["stepper"] == "armijo" else _L["plain"]()))
+        be.log = []
     x0 = np.array(cfg["x0"], dtype=float)
     req = _L["CorrectorInput"](initial_guess=x0.copy(), residual_fn=resid, jacobian_fn=(jac if cfg["jac"] == "analytic" else None), norm_fn=None,
                                max_attempts=cfg["max_attempts"], tol=cfg["tol"], max_delta=cfg["max_delta"], fd_step=1e-7)
     viol = []
-    tag = "problem=%s x0=%s tol=%g max_attempts=%d max_delta=%s stepper=%s jac=%s faults=%s" % (
-        cfg["problem"], cfg["x0"], cfg["tol"], cfg["max_attempts"], cfg["max_delta"], cfg["stepper"], cfg["jac"], sorted(cfg.get("faults", ())))
+    tag = "problem=%s x0=%s tol=%g max_attempts=%d max_delta=%s stepper=%s jac=%s faults=%s%s" % (
+        cfg["problem"], cfg["x0"], cfg["tol"], cfg["max_attempts"], cfg["max_delta"], cfg["stepper"], cfg["jac"], sorted(cfg.get("faults", ())),
+        " on a backend instance that solved %s before" % cfg["warm"] if cfg.get("warm") else "")
 
     def V(key, what, obs=None, exp=None):
         viol.append(violation("solver/" + key, what + " [" + tag + "]", obs, exp, ("solver_one", cfg)))
@@ -172,6 +189,28 @@ def k_solver(params):
                                 viol.setdefault(v["key"], v)
     return res(evals=cnt, nontrivial=nontriv, viol=list(viol.values()), stats={"solver_runs": cnt, **{"outcome_" + k: v for k, v in outcomes.items()}},
                sample={"problem": prob, "runs": cnt, "outcomes": outcomes})
+
+
+def k_solver_reuse(params):
+    prob = params["problem"]
+    n = _menu()[prob][2]
+    viol = {}
+    cnt = nontriv = 0
+    for warm in sorted(_menu()):
+        if warm == prob:
+            continue
+        for x0 in _starts(n, params["seed"]):
+            for md in (None, 1e-2):
+                for stepper in ("plain", "armijo"):
+                    for jac in ("analytic", "fd"):
+                        cfg = {"problem": prob, "x0": x0, "tol": 1e-12, "max_attempts": 25, "max_delta": md, "stepper": stepper, "jac": jac, "warm": warm}
+                        vs, oc, nupd = run_solver(cfg)
+                        cnt += 1
+                        nontriv += 1 if nupd >= 1 else 0
+                        for v in vs:
+                            v["key"] = v["key"].replace("solver/", "solver_reuse/", 1)
+                            viol.setdefault(v["key"], v)
+    return res(evals=cnt, nontrivial=nontriv, viol=list(viol.values()), stats={"solver_runs_on_reused_backend": cnt}, sample={"problem": prob, "runs": cnt})
 
 
 def k_solver_faults(params):
@@ -322,7 +361,7 @@ def k_orbit(params):
                sample={"tag": tag, "iterations": int(result.iterations), "residual": float(result.residual_norm), "period": T, "closure": c})
 
 
-KINDS = {"solver": k_solver, "solver_faults": k_solver_faults, "solver_one": k_solver_one, "orbit": k_orbit}
+KINDS = {"solver_reuse": k_solver_reuse, "solver": k_solver, "solver_faults": k_solver_faults, "solver_one": k_solver_one, "orbit": k_orbit}
 
 
 def cases(tier, seed):
@@ -330,6 +369,7 @@ def cases(tier, seed):
     for prob in _menu():
         out.append(("solver", {"problem": prob, "seed": seed}))
         out.append(("solver_faults", {"problem": prob, "seed": seed, "d": 1 if tier == "quick" else 2}))
+        out.append(("solver_reuse", {"problem": prob, "seed": seed}))
     o = seed_offsets(seed, 2, 0.1)
     systems = [["earth", "moon"]] + ([0.04] if tier == "quick" else [0.04, ["sun", "earth"]])
     for sysn in systems:
